@@ -65,7 +65,7 @@ pub fn reference(
 
 // ---------------------------------------------------------------------------
 
-pub const FAULT_NAMES: [&str; 16] = [
+pub const FAULT_NAMES: [&str; 18] = [
     "caught_panic_in_op",
     "thread_crash",
     "exit_then_respawn",
@@ -86,6 +86,10 @@ pub const FAULT_NAMES: [&str; 16] = [
     "crowd_of_live_threads",
     // operations executed back-to-back inside `burst` steps (long single-thread histories)
     "burst_operations",
+    // Display into a sink that itself calls set_default
+    "set_default_from_inside_sink",
+    // default() read by a Drop guard while the thread was unwinding out of a panicking operation
+    "mode_read_while_unwinding",
 ];
 
 #[derive(Clone, Default)]
@@ -535,6 +539,14 @@ pub fn judge(
                 }
                 if e.sink.err_fired {
                     stats.faults[6] += 1;
+                }
+                if let Op::FmtSet { .. } = op {
+                    stats.faults[16] += 1;
+                    stats.l1_checked += 1;
+                }
+                if e.sink.unwind_mode != 254 {
+                    stats.faults[17] += 1;
+                    stats.l1_checked += 1;
                 }
                 stats.yield_points_passed += e.sink.yhits as u64;
                 if e.sink.n_reent > 0 {
